@@ -24,18 +24,29 @@ typedef struct {
 	bool merge, dupsort;
 	int failkey;                /* -1 or universe index whose merge fails */
 	int failnth;                /* fail on the n-th callback invocation for that key (1-based) */
+	int mstyle;                 /* merge function: 0 = fold tree "(a+b)", 1 = shrinking sum (values are unary counts or "#<n>") */
 	int failstyle;              /* how the callback reports failure: 0 = stores NULL into *merged_val, 1 = returns without touching its out-parameters */
 } family;
 
 /* source values: unique tags "s<src>k<key>" padded with dots for multi-block sources */
-static size_t src_val(const family *F, int s, int ki, uint8_t *out) {
-	size_t n = sprintf((char *) out, "s%dk%d", s, ki);
+/* An entry is identified by e = 2*source + d; d = 1 only exists in sources of kind 'd' (a user source that holds every key twice).
+ * Fold style: unique tags "k<key><letter>s<src>" (letter z/a for the two duplicates of a 'd' source, m otherwise),
+ * padded with dots for multi-block sources. Sum style: unary counts of length 2^(2*src+1-d): distinct powers of two. */
+static int g_mstyle;
+static int nd_of(const family *F, int s) { return F->kind[s] == 'd' ? 2 : 1; }
+static size_t src_val(const family *F, int e, int ki, uint8_t *out) {
+	int s = e / 2, d = e % 2;
+	if (F->mstyle == 1) { size_t n = (size_t) 1 << (2 * s + 1 - d); memset(out, 'x', n); if (F->kind[s] == 'm') { /* multi-block: keep entries apart with a long value */ } return n; }
+	/* the letter decides the dupsort order before the source number does: the two duplicates of a 'd' source (z, a) enclose the values
+	 * of ordinary sources (m), so that equal keys from different sources interleave under dupsort */
+	size_t n = sprintf((char *) out, "k%d%cs%d", ki, F->kind[s] == 'd' ? (d ? 'a' : 'z') : 'm', s);
 	if (F->kind[s] == 'm') { memset(out + n, '.', 600); n += 600; }
 	return n;
 }
+static uint64_t sum_parse(const uint8_t *v, size_t l) { if (l && v[0] == '#') { uint64_t n = 0; for (size_t i = 1; i < l; i++) n = n * 10 + (v[i] - '0'); return n; } return l; }
 
 /* ---- invalidating user source ---- */
-typedef struct { int n; int ki[NU]; uint8_t *v[NU]; size_t vl[NU]; } usrc;
+typedef struct { int n; int ki[2 * NU]; uint8_t *v[2 * NU]; size_t vl[2 * NU]; } usrc;
 typedef struct { usrc *s; int pos; int kind; uint8_t bk[2][4]; size_t bl[2]; uint8_t *lastk, *lastv; bool dead; } uit;
 static void uit_drop(uit *x) { free(x->lastk); free(x->lastv); x->lastk = x->lastv = NULL; }
 static mtbl_res uit_next(void *v, const uint8_t **k, size_t *kl, const uint8_t **val, size_t *vl) {
@@ -78,6 +89,7 @@ static void fold_merge(void *clos, const uint8_t *key, size_t kl, const uint8_t 
 	(void) clos; g_merge_calls++;
 	int ki = -1; for (int i = 0; i < NU; i++) if (UK[i].n == kl && !memcmp(UK[i].b, key, kl)) ki = i;
 	if (ki >= 0) { g_calls_for_key[ki]++; if (ki == g_failkey && g_calls_for_key[ki] == g_failnth) { if (g_failstyle == 0) { *out = NULL; *outl = 0; } return; } }
+	if (g_mstyle == 1) { char b[32]; int n = snprintf(b, sizeof b, "#%llu", (unsigned long long) (sum_parse(v0, l0) + sum_parse(v1, l1))); *out = malloc(n); memcpy(*out, b, n); *outl = n; return; }
 	*outl = l0 + l1 + 3; *out = malloc(*outl);
 	(*out)[0] = '('; memcpy(*out + 1, v0, l0); (*out)[1 + l0] = '+'; memcpy(*out + 2 + l0, v1, l1); (*out)[2 + l0 + l1] = ')';
 }
@@ -108,9 +120,9 @@ static void family_images(msys *S) {
 	family *F = &S->F;
 	for (int s = 0; s < F->k; s++) {
 		S->img[s] = NULL;
-		if (F->kind[s] == 'u') continue;
+		if (F->kind[s] == 'u' || F->kind[s] == 'd') continue;
 		tkv e[NU]; size_t n = 0; uint8_t vb[NU][700];
-		for (int i = 0; i < NU; i++) if (F->mask[s] >> i & 1) { e[n].k = UK[i].b; e[n].kl = UK[i].n; e[n].vl = src_val(F, s, i, vb[n]); e[n].v = vb[n]; n++; }
+		for (int i = 0; i < NU; i++) if (F->mask[s] >> i & 1) { e[n].k = UK[i].b; e[n].kl = UK[i].n; e[n].vl = src_val(F, 2 * s, i, vb[n]); e[n].v = vb[n]; n++; }
 		tcfg cfg = { 0 }; cfg.comp = s & 1 ? 3 : 0; cfg.block_size = 1024; cfg.restart = 2;
 		int fd = tbl_write(&cfg, e, n, NULL);
 		S->img[s] = tbl_slurp(fd, &S->imglen[s]); S->imgfd[s] = fd;
@@ -118,7 +130,7 @@ static void family_images(msys *S) {
 }
 static void family_images_free(msys *S) { for (int s = 0; s < S->F.k; s++) { if (S->img[s]) close(S->imgfd[s]); free(S->img[s]); } }
 
-static unsigned srcs_with(const family *F, int ki) { unsigned m = 0; for (int s = 0; s < F->k; s++) if (F->mask[s] >> ki & 1) m |= 1u << s; return m; }
+static unsigned srcs_with(const family *F, int ki) { unsigned m = 0; for (int s = 0; s < F->k; s++) if (F->mask[s] >> ki & 1) for (int d = 0; d < nd_of(F, s); d++) m |= 1u << (2 * s + d); return m; }   /* mask over entries e = 2*source+d */
 static bool key_in_bound(const ispec *sp, int ki) {
 	const uint8_t *k = UK[ki].b; size_t kl = UK[ki].n;
 	switch (sp->kind) {
@@ -132,16 +144,16 @@ static int lb_key(const uint8_t *k, size_t kl) { int i = 0; while (i < NU && vh_
 
 static int ms_open(void *ctx) {
 	msys *S = ctx; family *F = &S->F;
-	g_merge_calls = 0; memset(g_calls_for_key, 0, sizeof g_calls_for_key); g_failkey = F->failkey; g_failnth = F->failnth; g_failstyle = F->failstyle;
+	g_merge_calls = 0; memset(g_calls_for_key, 0, sizeof g_calls_for_key); g_failkey = F->failkey; g_failnth = F->failnth; g_failstyle = F->failstyle; g_mstyle = F->mstyle;
 	struct mtbl_merger_options *mo = mtbl_merger_options_init();
 	if (F->merge) mtbl_merger_options_set_merge_func(mo, fold_merge, NULL);
 	if (F->dupsort) mtbl_merger_options_set_dupsort_func(mo, rev_dupsort, NULL);
 	S->m = mtbl_merger_init(mo); mtbl_merger_options_destroy(&mo);
 	for (int s = 0; s < F->k; s++) {
 		S->rd[s] = NULL; S->usrc_src[s] = NULL; S->fd[s] = -1;
-		if (F->kind[s] == 'u') {
+		if (F->kind[s] == 'u' || F->kind[s] == 'd') {
 			usrc *u = &S->us[s]; u->n = 0;
-			for (int i = 0; i < NU; i++) if (F->mask[s] >> i & 1) { uint8_t vb[700]; size_t vl = src_val(F, s, i, vb); u->ki[u->n] = i; u->v[u->n] = malloc(vl); memcpy(u->v[u->n], vb, vl); u->vl[u->n] = vl; u->n++; }
+			for (int i = 0; i < NU; i++) if (F->mask[s] >> i & 1) for (int d = 0; d < nd_of(F, s); d++) { uint8_t vb[700]; size_t vl = src_val(F, 2 * s + d, i, vb); u->ki[u->n] = i; u->v[u->n] = malloc(vl); memcpy(u->v[u->n], vb, vl); u->vl[u->n] = vl; u->n++; }
 			S->usrc_src[s] = mtbl_source_init(us_iter, us_get, us_prefix, us_range, NULL, u);
 			mtbl_merger_add_source(S->m, S->usrc_src[s]);
 		} else {
@@ -187,16 +199,23 @@ static int parse_leaves(const uint8_t *v, size_t n, struct { const uint8_t *p; s
 }
 /* does value v equal exactly the fold of the values of sources in `mask` for key ki (any fold order)? */
 static bool value_is_fold(const family *F, int ki, unsigned mask, const uint8_t *v, size_t vl, char *why, size_t wn) {
+	int want = __builtin_popcount(mask);
+	if (F->mstyle == 1) {
+		uint64_t sum = 0; uint8_t vb[700]; for (int e = 0; e < 2 * F->k; e++) if (mask >> e & 1) sum += src_val(F, e, ki, vb);
+		for (size_t i = (vl && v[0] == '#') ? 1 : 0; i < vl; i++) if (v[0] == '#' ? (v[i] < '0' || v[i] > '9') : v[i] != 'x') { snprintf(why, wn, "value is neither a unary count nor a decimal sum (stale bytes?)"); return false; }
+		if (want == 1 && vl && v[0] == '#') { snprintf(why, wn, "a key present once must pass through unchanged"); return false; }
+		if (sum_parse(v, vl) != sum) { snprintf(why, wn, "value sums to %llu, the source values for the key sum to %llu", (unsigned long long) sum_parse(v, vl), (unsigned long long) sum); return false; }
+		return true;
+	}
 	struct { const uint8_t *p; size_t n; } leaf[16];
 	int nl = parse_leaves(v, vl, (void *) leaf, 16);
-	int want = __builtin_popcount(mask);
 	if (nl < 0) { snprintf(why, wn, "value is not a well-formed fold tree"); return false; }
-	if (nl != want) { snprintf(why, wn, "value folds %d source values, %d sources hold the key", nl, want); return false; }
+	if (nl != want) { snprintf(why, wn, "value folds %d source values, %d source entries hold the key", nl, want); return false; }
 	if (want == 1 && (v[0] == '(')) { snprintf(why, wn, "a key present in one source must pass through unchanged"); return false; }
 	unsigned seen = 0;
 	for (int i = 0; i < nl; i++) {
 		bool found = false;
-		for (int s = 0; s < F->k; s++) if ((mask >> s & 1) && !(seen >> s & 1)) { uint8_t vb[700]; size_t l = src_val(F, s, ki, vb); if (l == leaf[i].n && !memcmp(vb, leaf[i].p, l)) { seen |= 1u << s; found = true; break; } }
+		for (int e = 0; e < 2 * F->k; e++) if ((mask >> e & 1) && !(seen >> e & 1)) { uint8_t vb[700]; size_t l = src_val(F, e, ki, vb); if (l == leaf[i].n && !memcmp(vb, leaf[i].p, l)) { seen |= 1u << e; found = true; break; } }
 		if (!found) { snprintf(why, wn, "leaf '%.*s' is not an unused source value for this key", (int) (leaf[i].n > 12 ? 12 : leaf[i].n), leaf[i].p); return false; }
 	}
 	return true;
@@ -240,9 +259,9 @@ static bool ms_step(void *ctx, int op) {
 		} else {
 			/* one source entry: must be an unconsumed source's value; with dupsort the largest remaining one */
 			unsigned avail = srcs_with(F, S->ki) & ~S->used; int which = -1;
-			for (int s = 0; s < F->k; s++) if (avail >> s & 1) { uint8_t vb[700]; size_t l = src_val(F, s, S->ki, vb); if (l == vl && !memcmp(vb, v, l)) which = s; }
+			for (int e = 0; e < 2 * F->k; e++) if (avail >> e & 1) { uint8_t vb[700]; size_t l = src_val(F, e, S->ki, vb); if (l == vl && !memcmp(vb, v, l)) which = e; }
 			if (which < 0) { snprintf(bfs_fail, sizeof bfs_fail, "key %s: value %.12s is not an un-emitted source entry", vh_hex(k, kl), (const char *) v); return false; }
-			if (F->dupsort) for (int s = 0; s < F->k; s++) if ((avail >> s & 1) && s != which) { uint8_t vb[700], wb[700]; size_t l = src_val(F, s, S->ki, vb), wl = src_val(F, which, S->ki, wb); if (rev_dupsort(NULL, NULL, 0, wb, wl, vb, l) > 0) { snprintf(bfs_fail, sizeof bfs_fail, "key %s: entries with equal keys are not in dupsort order", vh_hex(k, kl)); return false; } }
+			if (F->dupsort) for (int s = 0; s < 2 * F->k; s++) if ((avail >> s & 1) && s != which) { uint8_t vb[700], wb[700]; size_t l = src_val(F, s, S->ki, vb), wl = src_val(F, which, S->ki, wb); if (rev_dupsort(NULL, NULL, 0, wb, wl, vb, l) > 0) { snprintf(bfs_fail, sizeof bfs_fail, "key %s: entries with equal keys are not in dupsort order", vh_hex(k, kl)); return false; } }
 			S->used |= 1u << which;
 		}
 		S->have_last = true; S->lk = k; S->lkl = kl; S->lv = v; S->lvl = vl;
@@ -275,7 +294,7 @@ static uint64_t canon_src_iter(const struct mtbl_iter *it) {
 }
 static uint64_t ms_canon(void *ctx) {
 	msys *S = ctx;
-	uint64_t h = vh_mix(S->ki * 64 + S->used * 4 + S->failed * 2 + S->have_last, 5 + S->dead);
+	uint64_t h = vh_mix(vh_mix(S->ki, S->used) * 4 + S->failed * 2 + S->have_last, 5 + S->dead);
 	if (!S->it) return vh_mix(h, 0xdead);
 	struct merger_iter *mi = S->it->clos;
 	h = vh_mix(h, mi->finished * 2 + mi->pending);
@@ -297,7 +316,7 @@ static uint64_t ms_canon(void *ctx) {
 static const char *fam_desc(const family *F, const ispec *sp) {
 	static char b[200]; int o = snprintf(b, sizeof b, "M:%d:", F->k);
 	for (int s = 0; s < F->k; s++) o += snprintf(b + o, sizeof b - o, "%c%d,", F->kind[s], F->mask[s]);
-	snprintf(b + o, sizeof b - o, ":%d%d:%d.%d:%d,%d,%d", F->merge, F->dupsort, F->failkey, F->failnth + 100 * F->failstyle, sp->kind, sp->a, sp->b);
+	snprintf(b + o, sizeof b - o, ":%d%d:%d.%d:%d,%d,%d", F->merge, F->dupsort + 2 * F->mstyle, F->failkey, F->failnth + 100 * F->failstyle, sp->kind, sp->a, sp->b);
 	return b;
 }
 static const char *ms_explain(void *ctx, const int *ops, int nops) {
@@ -339,7 +358,7 @@ static void for_each_family(int maxk, const char *kinds, void (*fn)(void)) {
 				if (!vh_mine(g_idx++)) continue;
 				if (vh_time_up() || vh_too_many()) return;
 				S.F.k = k;
-				for (int s = 0; s < k; s++) S.F.kind[s] = (*kd == 'x') ? "rum"[s % 3] : *kd;
+				for (int s = 0; s < k; s++) S.F.kind[s] = (*kd == 'x') ? "rum"[s % 3] : (*kd == 'y') ? "dru"[s % 3] : *kd;
 				family_images(&S);
 				fn();
 				family_images_free(&S);
@@ -350,19 +369,22 @@ static void for_each_family(int maxk, const char *kinds, void (*fn)(void)) {
 
 /* C04: drain the plain iterator for every option combination; with merge also every failing (key, nth) */
 static void do_drain(void) {
-	for (int mg = 0; mg < 2; mg++) for (int ds = 0; ds < 2; ds++) {
+	for (int mg = 0; mg < 2; mg++) for (int ds = 0; ds < 2; ds++) for (int ms = 0; ms < (mg ? 2 : 1); ms++) {
 		S.F.merge = mg; S.F.dupsort = ds; S.F.failkey = -1; S.F.failnth = 0; S.sp = SPECS[0];
-		int ops[16]; int n = 0; int total = 0; for (int i = 0; i < NU; i++) total += mg ? (srcs_with(&S.F, i) != 0) : __builtin_popcount(srcs_with(&S.F, i));
+		if (S.F.mstyle != ms) { family_images_free(&S); S.F.mstyle = ms; family_images(&S); }    /* source tables hold values of the current style */
+		int ops[48]; int n = 0; int total = 0; for (int i = 0; i < NU; i++) total += mg ? (srcs_with(&S.F, i) != 0) : __builtin_popcount(srcs_with(&S.F, i));
 		for (int i = 0; i < total + 2; i++) ops[n++] = 0;
 		vh_case_begin(render, &S);
 		bfs_replay(&BS, ops, n, NULL);
 		VH_COUNT("states", 1);
 		vh_case_end();
-		uint64_t sig = vh_mix(mg * 2 + ds, S.F.k); for (int i = 0; i < NU; i++) sig = vh_mix(sig, __builtin_popcount(srcs_with(&S.F, i))); for (int s = 0; s < S.F.k; s++) sig = vh_mix(sig, S.F.kind[s]);
+		uint64_t sig = vh_mix(mg * 2 + ds + 4 * ms, S.F.k); for (int i = 0; i < NU; i++) sig = vh_mix(sig, __builtin_popcount(srcs_with(&S.F, i))); for (int s = 0; s < S.F.k; s++) sig = vh_mix(sig, S.F.kind[s]);
 		vh_sig(sig);
 		if (g_merge_calls) VH_COUNT("drains_with_merging", 1);
+		for (int s = 0; s < S.F.k; s++) if (S.F.kind[s] == 'd' && S.F.mask[s]) { VH_COUNT("drains_with_duplicate_keys_in_one_source", 1); break; }
 		if (srcs_with(&S.F, 0)) VH_COUNT("drains_with_empty_key", 1);
 	}
+	if (S.F.mstyle != 0) { family_images_free(&S); S.F.mstyle = 0; family_images(&S); }
 }
 static void do_fail(void) {
 	for (int fk = 0; fk < NU; fk++) {
@@ -477,7 +499,7 @@ int main(int argc, char **argv) {
 		if (sscanf(s, "M:%d:%n", &S.F.k, &off) < 1) return 2; s += off;
 		for (int i = 0; i < S.F.k; i++) { if (sscanf(s, "%c%d,%n", &S.F.kind[i], &S.F.mask[i], &off) < 2) return 2; s += off; }
 		if (sscanf(s, ":%1d%1d:%d.%d:%d,%d,%d:%n", &mg, &ds, &S.F.failkey, &S.F.failnth, &S.sp.kind, &S.sp.a, &S.sp.b, &off) < 7) return 2; s += off;
-		S.F.merge = mg; S.F.dupsort = ds; S.F.failstyle = S.F.failnth / 100; S.F.failnth %= 100;
+		S.F.merge = mg; S.F.mstyle = ds / 2; S.F.dupsort = ds % 2; S.F.failstyle = S.F.failnth / 100; S.F.failnth %= 100;
 		int ops[BFS_MAXD + 2], n = 0;
 		while (*s && n < BFS_MAXD) { int v, o2; if (sscanf(s, "%d%n", &v, &o2) < 1) break; ops[n++] = v; s += o2; if (*s == '.') s++; }
 		family_images(&S);
@@ -490,9 +512,9 @@ int main(int argc, char **argv) {
 		return vh_finish();
 	}
 	const char *mode = vh_arg(0, "drain");
-	if (!strcmp(mode, "drain")) { BS.viol_key = "merge-output"; for_each_family(vh_thorough ? 4 : 3, "rumx", do_drain); }
-	else if (!strcmp(mode, "fail")) { BS.viol_key = "merge-failure"; for_each_family(vh_thorough ? 4 : 3, "rx", do_fail); }
-	else if (!strcmp(mode, "bfs")) { BS.viol_key = "seek-contract"; for_each_family(vh_thorough ? 3 : 2, vh_thorough ? "rumx" : "rmu", do_bfs); }
+	if (!strcmp(mode, "drain")) { BS.viol_key = "merge-output"; for_each_family(vh_thorough ? 4 : 3, "rumxdy", do_drain); }
+	else if (!strcmp(mode, "fail")) { BS.viol_key = "merge-failure"; for_each_family(vh_thorough ? 4 : 3, "rxy", do_fail); }
+	else if (!strcmp(mode, "bfs")) { BS.viol_key = "seek-contract"; for_each_family(vh_thorough ? 3 : 2, vh_thorough ? "rumxd" : "rmud", do_bfs); }
 	else if (!strcmp(mode, "tree")) { BS.viol_key = "seek-contract"; g_treedepth = vh_thorough ? 4 : 3; for_each_family(2, vh_thorough ? "xu" : "x", do_bfs); }
 	else if (!strcmp(mode, "srcwrite")) { BS.viol_key = "source-write"; for_each_family(3, "rmx", do_srcwrite); }
 	else if (!strcmp(mode, "tool")) { BS.viol_key = "mtbl_merge"; for_each_family(vh_thorough ? 3 : 2, "rm", do_tool); }
